@@ -328,6 +328,62 @@ impl<T> Deque<T> {
     }
 }
 
+// Read-only helpers for verification builds.
+#[cfg(mini_moka_verif)]
+impl<T> Deque<T> {
+    pub(crate) fn verif_len(&self) -> usize {
+        self.len
+    }
+
+    /// Walks the list from the head without touching the cursor and checks that
+    /// `len`, `head`, `tail` and the `prev`/`next` links agree. Returns the node
+    /// pointers in list order.
+    pub(crate) fn verif_walk(&self) -> Result<Vec<NonNull<DeqNode<T>>>, String> {
+        let mut nodes = Vec::with_capacity(self.len);
+        let mut prev: Option<NonNull<DeqNode<T>>> = None;
+        let mut cur = self.head;
+        while let Some(node) = cur {
+            if nodes.len() > self.len {
+                return Err(format!(
+                    "deque {:?}: walk is longer than len {}",
+                    self.region, self.len
+                ));
+            }
+            let n = unsafe { node.as_ref() };
+            if n.prev != prev {
+                return Err(format!(
+                    "deque {:?}: prev link of node #{} is inconsistent",
+                    self.region,
+                    nodes.len()
+                ));
+            }
+            nodes.push(node);
+            prev = Some(node);
+            cur = n.next;
+        }
+        if nodes.len() != self.len {
+            return Err(format!(
+                "deque {:?}: walk found {} nodes but len is {}",
+                self.region,
+                nodes.len(),
+                self.len
+            ));
+        }
+        if self.tail != prev {
+            return Err(format!("deque {:?}: tail is not the last node", self.region));
+        }
+        if let Some(DeqCursor::Node(c)) = self.cursor {
+            if !nodes.contains(&c) {
+                return Err(format!(
+                    "deque {:?}: cursor points to a node outside the list",
+                    self.region
+                ));
+            }
+        }
+        Ok(nodes)
+    }
+}
+
 #[cfg(test)]
 mod tests {
     use super::{CacheRegion::MainProbation, DeqNode, Deque};
